@@ -73,6 +73,36 @@ def worldx(prop, qb, tb):
     }
 
 
+def tsanx(prop):
+    return {
+        "name": "tsanx", "dir": "tsanx", "variant": "tsan",
+        "cmd": ["{build}/harness/tsanx/tsanx", "--prop", prop, "--tier", "{tier}", "--shard", "{shard}", "--nshards", "{nshards}",
+                "--out", "{out}", "--seed", "{seed}", "--budget", "{budget}"],
+        "shards": {"quick": 8, "thorough": 16},
+        "budget": {"quick": 60, "thorough": 600},
+    }
+
+
+def stalex(qb=60, tb=600):
+    return {
+        "name": "stalex", "dir": "stalex", "variant": "verif",
+        "cmd": ["{build}/harness/stalex/stalex", "--prop", "C14", "--tier", "{tier}", "--shard", "{shard}", "--nshards", "{nshards}",
+                "--out", "{out}", "--seed", "{seed}", "--budget", "{budget}"],
+        "shards": {"quick": 16, "thorough": 16},
+        "budget": {"quick": qb, "thorough": tb},
+    }
+
+
+def procx(qb=60, tb=600):
+    return {
+        "name": "procx", "dir": "procx", "variant": "verif",
+        "cmd": ["{build}/harness/procx/procx", "--prop", "C16", "--tier", "{tier}", "--shard", "{shard}", "--nshards", "{nshards}",
+                "--out", "{out}", "--seed", "{seed}", "--budget", "{budget}"],
+        "shards": {"quick": 16, "thorough": 16},
+        "budget": {"quick": qb, "thorough": tb},
+    }
+
+
 A_SCHED = [
     "sequential consistency; atomics are not scheduling points (every conflicting pair of atomic accesses in these bodies is separated by a mutex operation)",
     "data races as such are invisible to a serialising scheduler",
@@ -92,8 +122,8 @@ CHECKS = {
     "C02": {"level": "model_checking", "parts": [enginex("C02")], "assumptions": A_ENGINE},
     "C03": {"level": "model_checking", "parts": [enginex("C03")], "assumptions": A_ENGINE},
     "C04": {"level": "fault_enumeration", "parts": [crashx()], "assumptions": []},
-    "C05": {"level": "model_checking", "parts": [enginex("C05"), schedx("C05")], "assumptions": A_ENGINE + A_SCHED},
-    "C06": {"level": "model_checking", "parts": [enginex("C06"), schedx("C06")], "assumptions": A_ENGINE + A_SCHED},
+    "C05": {"level": "model_checking", "parts": [enginex("C05"), schedx("C05"), tsanx("C05")], "assumptions": A_ENGINE + A_SCHED},
+    "C06": {"level": "model_checking", "parts": [enginex("C06"), schedx("C06"), tsanx("C06")], "assumptions": A_ENGINE + A_SCHED},
     "C07": {"level": "model_checking", "parts": [enginex("C07")], "assumptions": A_ENGINE},
     "C08": {"level": "exploration", "parts": [worldx("C08", 200, 1500)], "assumptions": []},
     "C09": {"level": "exploration", "parts": [worldx("C09", 200, 1500)], "assumptions": []},
@@ -101,9 +131,9 @@ CHECKS = {
     "C11": {"level": "exploration", "parts": [parsex("C11")], "assumptions": []},
     "C20": {"level": "model_checking", "parts": [enginex("C20")], "assumptions": A_ENGINE},
     "C13": {"level": "exploration", "parts": [enumx("C13")], "assumptions": []},
-    "C14": {"level": "exploration", "parts": [enumx("C14")], "assumptions": []},
+    "C14": {"level": "exploration", "parts": [enumx("C14"), stalex()], "assumptions": []},
     "C15": {"level": "exploration", "parts": [enumx("C15")], "assumptions": []},
-    "C16": {"level": "model_checking", "parts": [schedx("C16")], "assumptions": A_SCHED},
+    "C16": {"level": "model_checking", "parts": [schedx("C16"), procx(), tsanx("C16")], "assumptions": A_SCHED},
     "C17": {"level": "exploration", "parts": [ninjax()], "assumptions": []},
     "C19": {"level": "exploration", "parts": [parsex("C19")], "assumptions": []},
 }
